@@ -745,6 +745,9 @@ def run(ctx):
     ctx.attempt(r1611, ctx)
     ctx.rule("R-16.12", "GROMACS-generated velocities use the engine's current temperature: the re-used genvel input (content depends on self.temperature) lives in the per-job scratch directory", floor=1)
     ctx.attempt(r1612, ctx)
+    ctx.rule("R-16.14", "the shooting frame is dumped into a fresh file: a flag literal passed positionally to a writer lands on its flag parameter (append), not on `step` (shared with C19 R-19.13); today every such flag is passed by keyword - the positive control exercises the rule", floor=0)
+    from .shared import positional_literal_kind
+    ctx.attempt(positional_literal_kind, ctx, "R-16.14", [CP2K, LAMMPS, GROMACS, ENGBASE, "infretis/classes/engines/engineparts.py", ASE, TURTLE], ": the dumped shooting frame is appended to the file of an earlier regeneration, and the regeneration reads back the first snapshot - positions of an earlier shooting point")
     ctx.rule("R-16.10", "the kinetic energies whose difference is reported are computed by the same expression before and after the regeneration (same unit, same mass table)", floor=3)
     ctx.rule("R-16.9", "a callee handed an ensemble dictionary looks up only keys that record has (velocity settings such as zero_momentum live in its tis_set; a .get() on the ensemble itself silently yields the default)", floor=8)
     from .shared import ensemble_record_agreement
@@ -784,6 +787,7 @@ def run(ctx):
 
 
 VARIANTS = [
+    B("c16-cp2k-extract-appends", CP2K, "                write_xyz_trajectory(\n                    out_file, xyz, vel, names, box, append=False\n                )", "                write_xyz_trajectory(out_file, xyz, vel, names, box, False)", "R-16.14", control=True, why="seeded C16_m (= C19_i)"),
     B("c16-lammps-pops-zero-momentum", LAMMPS, 'vel_settings.get("zero_momentum", False)', 'vel_settings.pop("zero_momentum", False)', "R-16.13", control=True, why="seeded C16_l"),
     B("c16-genvel-input-cached-in-input-dir", GROMACS, '        gen_mdp = os.path.join(self.exe_dir, "genvel.mdp")', '        gen_mdp = os.path.join(self.input_path, "genvel.mdp")', "R-16.12", control=True, why="seeded C16_k"),
     B("c16-sigma-reciprocal-of-integer-masses", ENGBASE, "            sigma_v = np.sqrt(kbt * (1 / mass))", "            sigma_v = np.sqrt(kbt * np.reciprocal(mass))", "R-16.8", control=True, why="seeded C16_j"),
